@@ -506,4 +506,62 @@ theorem C02_dormant_door (k : TaskKey) (ev : Status) (c : Cond)
     · rw [h1] at h
       rcases h with h | h <;> cases h
 
+/-- **C03**: when a task reports a completion (succeeded, failed, canceled) to a running or
+    resuming workflow in which no task is active, nothing is staged ready and the reporting task
+    has no next task, the workflow machine does not leave the workflow running: it comes to rest
+    (succeeded, failed, canceled or paused) — for every state, on the implementation's own queries -/
+theorem C03_quiescent_report_rests (k : TaskKey) (ev : Status) (c : Cond)
+    (hs : c.st.status = .running ∨ c.st.status = .resuming)
+    (hev : ev = .succeeded ∨ ev = .failed ∨ ev = .canceled)
+    (hact : c.st.hasActive = false) (hst : c.st.hasStaged = false) (hnx : hasNext c k true = false) :
+    resting (wfProcessTaskEvent k ev c).2.st.status = true := by
+  unfold wfProcessTaskEvent
+  dsimp only
+  have hsum : (taskEventSummary ev (hasNext c k false) (hasNext c k true) c.st.hasActive c.st.hasCanceling c.st.hasCanceled
+      c.st.hasPausing c.st.hasPaused c.st.hasStaged).2.1 = false := by
+    unfold taskEventSummary; exact hact
+  have hoc : ((taskEventSummary ev (hasNext c k false) (hasNext c k true) c.st.hasActive c.st.hasCanceling c.st.hasCanceled
+      c.st.hasPausing c.st.hasPaused c.st.hasStaged).2.2 == Outcome.incomplete) = false := by
+    unfold taskEventSummary
+    dsimp only
+    rw [hst, hnx]
+    cases c.st.hasCanceling <;> cases c.st.hasCanceled <;> cases c.st.hasPausing <;> cases c.st.hasPaused <;> rfl
+  have htbl := tbl_quiescent_resolves c.st.status ev
+    (taskEventSummary ev (hasNext c k false) (hasNext c k true) c.st.hasActive c.st.hasCanceling c.st.hasCanceled
+      c.st.hasPausing c.st.hasPaused c.st.hasStaged).1
+    (taskEventSummary ev (hasNext c k false) (hasNext c k true) c.st.hasActive c.st.hasCanceling c.st.hasCanceled
+      c.st.hasPausing c.st.hasPaused c.st.hasStaged).2.2
+    (by rcases hs with h | h <;> rw [h] <;> rfl) (by rcases hev with h | h | h <;> rw [h] <;> rfl)
+  have hacc := C15_task_events_accepted c.st.status ev
+    (taskEventSummary ev (hasNext c k false) (hasNext c k true) c.st.hasActive c.st.hasCanceling c.st.hasCanceled
+      c.st.hasPausing c.st.hasPaused c.st.hasStaged).1 false
+    (taskEventSummary ev (hasNext c k false) (hasNext c k true) c.st.hasActive c.st.hasCanceling c.st.hasCanceled
+      c.st.hasPausing c.st.hasPaused c.st.hasStaged).2.2
+    (by rcases hs with h | h <;> rw [h] <;> rfl) (by rcases hev with h | h | h <;> rw [h] <;> rfl)
+  rw [hsum]
+  cases hw : wfOnTaskEvent c.st.status ev
+      (taskEventSummary ev (hasNext c k false) (hasNext c k true) c.st.hasActive c.st.hasCanceling c.st.hasCanceled
+        c.st.hasPausing c.st.hasPaused c.st.hasStaged).1 false
+      (taskEventSummary ev (hasNext c k false) (hasNext c k true) c.st.hasActive c.st.hasCanceling c.st.hasCanceled
+        c.st.hasPausing c.st.hasPaused c.st.hasStaged).2.2 with
+  | raise e =>
+    rw [hw] at hacc
+    cases hacc
+  | ok s' =>
+    have hrest : resting s' = true := by
+      have := StepRes.all?_ok htbl hw
+      rw [hoc] at this
+      simpa using this
+    dsimp only
+    split
+    · split
+      · exact hrest
+      · have : (M.forEach (unreachableBarriers { c with st := { c.st with status := s' } })
+            (fun x => logError "UnreachableJoinError" (some x.id) (some x.route))
+            { c with st := { c.st with status := Status.failed } }).2.st.status = Status.failed :=
+          (Rel.forEach (P := keepPre) _ (fun x => logError_keep _ _ _ _)).run _
+        rw [this]
+        rfl
+    · exact hrest
+
 end Orq
